@@ -69,6 +69,7 @@ struct Mon {
 	int expect_result = -1;          // result the next view must report for the previous action
 	bool logger_ops_effective = true;
 	int last_method = -1, last_cls = -1;
+	bool limit_reached = false;
 	uint8_t consumed_logs[32] = {0};
 	const void* ev_addr = 0; bool ev_addr_set = false;
 
@@ -357,6 +358,7 @@ struct Mon {
 			else { any_cancel = true; if (rounds >= 2 && survivor.has) mark_nontrivial("veto_after_survivor"); }
 		}
 		if (T.slot.has && rounds >= L) mark_nontrivial("substitution_limit_hits");
+		limit_reached = rounds >= L;
 		if (stop) return;
 		// C03/C04: no further guard may follow; what follows is exit/enter or reenter of the last survivor, or nothing
 		if (const HookEv* e = peek()) if (e->flavour == CF_GUARD) {
@@ -369,6 +371,7 @@ struct Mon {
 		if (stop && hi == before) {
 			// the lifecycle callbacks that followed are not those of the last surviving request
 			const HookEv* e = peek();
+			if (rounds >= L) viol("C04", "limit-ends-in-a-request-that-passed", "the substitution limit was reached after " + S(static_cast<int>(rounds)) + " rounds and the call did not end in the last request that passed its guards " + req_str(survivor) + (e ? ": " + ev_str(*e) + " ran" : ": nothing ran"));
 			if (any_cancel) viol("C03", "fallback-to-last-survivor", "after a vetoed round the machine did not fall back to the last request that survived its guards " + req_str(survivor) + (e ? ": " + ev_str(*e) + " ran" : ": nothing ran"));
 			if (e && (e->method == M_ENTER || e->method == M_EXIT || e->method == M_REENTER) && survivor.has)
 				viol("C14", "transition-activates-requested-state", "the surviving request names state " + S(survivor.dest) + " but " + ev_str(*e) + " ran");
@@ -733,6 +736,8 @@ struct Mon {
 			viol(prop, clause, "unexpected callback " + ev_str(e) + (expect_no_hooks ? " during an operation that must not run callbacks" : " after everything this call should have delivered"));
 			if (e.method == last_method && e.cls == last_cls && (n_inj(e.cls) > 0 || own_inj(e.cls)))
 				viol("C15", "each-once", ev_str(e) + " ran once more than the delivery of " + METHOD_NAMES[e.method] + " to state " + sid(e.cls) + " (injections + state, each exactly once) allows");
+			if (limit_reached && (k == OP_UPDATE || k == OP_REACT || k == OP_IMM_CHANGE_TO || k == OP_IMM_CHANGE_WITH) && !guard)
+				viol("C04", "limit-ends-in-a-request-that-passed", "the substitution limit was reached and no request had passed its guards, yet " + ev_str(e) + " ran");
 			if (k == OP_COPY) { viol("C17", "copy-runs-no-callbacks", "copy construction ran " + ev_str(e) + ": a copy must be equal to the original at the moment of copying, not re-activated"); viol("C01", "lifecycle-pairing", "copy construction ran " + ev_str(e) + " although the copied machine is already active"); }
 			if (guard && (k == OP_LOAD || k == OP_REPLAY_TRANSITION || k == OPX_REPLAY_MSG)) viol("C03", "no-guards-on-replay-load", "guard " + ev_str(e) + " consulted during load/replay");
 			stop = true;
